@@ -15,43 +15,62 @@ sys.path.insert(0, os.path.dirname(os.path.abspath(__file__)))
 import vlib  # noqa: E402
 from vlib import Inconclusive  # noqa: E402
 
-L1_INVARIANTS = ("Refines", "RegAgrees", "ReadableHasContent", "Reclaimed", "TypeOK")
-L1_PROPERTIES = ("GCInvisible", "LateIsIdentity", "CommitAsPromised")
+L1_INVARIANTS = ("XRefines", "XRegAgrees", "XReadableHasContent", "XReclaimed", "XTypeOK")
+L1_PROPERTIES = ("XGCInvisible", "XLateIsIdentity", "XCommitAsPromised")
 
 
 def allowed_dev():
     return sorted({f["signature"] for f in vlib.known_findings().get("findings", []) if f.get("deviation")})
 
 
-def l1_stage(chk, name, constants, mode="inline", keep=None, sample=None, simulate=None, depth=None,
-             workers=vlib.NPROC, timeout=3000, fs=True, coverage=False):
-    """One exhaustive (or simulated) TLC run of FsDb.tla that checks the design-level properties and emits
-    every behaviour, followed by the replay of the (maximal, filtered, sampled) behaviours in the real code."""
-    wd = vlib.scratch("l1")
+def l1_stage(chk, name, constants, **kw):
+    """FsDb.tla (L1): design-level properties checked by TLC, every emitted behaviour replayed by `session`."""
+    consts = dict(constants)
+    consts.setdefault("AllowedDev", set(allowed_dev()))
+    simulate = kw.get("simulate")
+    return spec_stage(chk, name, "FsDb.tla", consts, view="RankView", emit="EmitFinal" if simulate else "Emit",
+                      invariants=L1_INVARIANTS, properties=() if simulate else L1_PROPERTIES, exe="session", **kw)
+
+
+def spec_stage(chk, name, module, consts, view, emit, invariants, properties, exe, mode="inline", keep=None, sample=None,
+               simulate=None, depth=None, workers=vlib.NPROC, timeout=3000, fs=True, coverage=False, chunk=400):
+    """One exhaustive (or simulated) TLC run that checks the design-level properties and emits every behaviour,
+    followed by the replay of the (maximal, filtered, sampled) behaviours in the real code."""
+    wd = vlib.scratch("st")
     try:
-        consts = dict(constants)
-        consts.setdefault("AllowedDev", set(allowed_dev()))
         cfg = os.path.join(wd, name + ".cfg")
-        vlib.write_cfg(cfg, consts, view="RankView", action_constraint="EmitFinal" if simulate else "Emit",
-                       invariants=L1_INVARIANTS, properties=() if simulate else L1_PROPERTIES)
+        vlib.write_cfg(cfg, consts, view=view, action_constraint=emit, invariants=invariants, properties=properties)
         emitted = os.path.join(wd, "emitted.ndjson")
-        r = vlib.run_tlc("FsDb.tla", cfg, wd, workers=(1 if simulate else workers), simulate=simulate, depth=depth,
+        r = vlib.run_tlc(module, cfg, wd, workers=(1 if simulate else workers), simulate=simulate, depth=depth,
                          tseed=vlib.seed(), timeout=timeout, emit_to=emitted, coverage=coverage)
         st = chk.add_tlc(name + ":tlc", r, consts)
         if r.violation:
-            # the design itself breaks the property in the model: a candidate, reported with the TLC trace;
-            # it becomes a verdict only through the replay below (the emitted behaviours include it)
+            # The design itself breaks a property in the model. That is a candidate only: the offending behaviour
+            # (printed by the X-property) is replayed first, and TLC is run again without the properties so that
+            # the complete set of behaviours is still emitted and replayed.
             st["tlc_violation"] = r.violation[:1500]
             chk.extra.setdefault("design_counterexamples", []).append({"stage": name, "text": r.violation[:3000]})
+            cexf = os.path.join(wd, "cex.ndjson")
+            with open(cexf, "w") as f:
+                for c in r.cex:
+                    f.write(c + "\n")
+            before = len(chk.violations) + len(chk.known)
+            if r.cex:
+                cres = vlib.replay(cexf, mode=mode, fs=fs, exe_name=exe, chunk=chunk)
+                chk.absorb_replay(name + ":replay-counterexample(" + mode + ")", cres, cexf)
+            if len(chk.violations) + len(chk.known) == before:
+                raise Inconclusive("TLC reports a design-level violation in stage %s that the real code does not show: "
+                                   "the model misrepresents the code (counterexample kept in the evidence file)" % name)
+            vlib.write_cfg(cfg, consts, view=view, action_constraint=emit, invariants=(), properties=())
+            r = vlib.run_tlc(module, cfg, wd, workers=(1 if simulate else workers), simulate=simulate, depth=depth,
+                             tseed=vlib.seed(), timeout=timeout, emit_to=emitted)
+            st = chk.add_tlc(name + ":tlc-emit-only", r, consts)
         beh = os.path.join(wd, "beh.ndjson")
         n_in, n_max, n_out = vlib.dedup_prefixes(emitted, beh, keep=keep, sample=sample,
                                                  rnd=random.Random(vlib.seed() * 7919 + len(chk.stages)))
         st.update({"transitions_emitted": n_in, "maximal_behaviours": n_max, "behaviours_replayed": n_out})
-        res = vlib.replay(beh, mode=mode, fs=fs)
+        res = vlib.replay(beh, mode=mode, fs=fs, exe_name=exe, chunk=chunk)
         chk.absorb_replay(name + ":replay(" + mode + ")", res, beh)
-        if r.violation and not chk.violations and not chk.known:
-            raise Inconclusive("TLC reports a design-level violation in stage %s that the real code does not show: "
-                               "the model misrepresents the code (log kept in evidence)" % name)
     finally:
         shutil.rmtree(wd, ignore_errors=True)
 
@@ -142,7 +161,42 @@ def c14(chk):
              simulate=60 if quick else 1500, depth=60, keep=quiet)
 
 
-PLANS = {"C01": c01, "C02": c02, "C03": c03, "C09": c09, "C13": c13, "C14": c14}
+def set_rule():
+    """"cas0" (sequence.Set only acts on a zero counter, the code as found) unless the repair is recorded."""
+    fixed = [f for f in vlib.known_findings().get("fixed", []) if f.get("signature") == "seq-set-cas-from-zero"]
+    return "max" if fixed else "cas0"
+
+
+def c05(chk):
+    quick = chk.tier == "quick"
+    # (a) one process, Close/Open at every position of transactional histories (FsDb.tla)
+    re_ = has("reopen")
+    l1_stage(chk, "reopen_inproc", dict(Keys=K2, MaxTx=1, MaxSteps=5, Levels={"RC", "RR"}, Ops=TXOPS | {"reopen", "gc"}),
+             keep=re_, sample=4000 if quick else 60000)
+    # (b) several instances, several processes (Reopen.tla)
+    rule = set_rule()
+    for nm, consts, smp in (
+            ("procs_2inst", dict(Inst={"A", "B"}, Keys=K1, MaxSteps=10 if quick else 11, MaxProcs=2 if quick else 3, SetRule=rule), 500 if quick else 6000),
+            ("procs_1inst_2keys", dict(Inst={"A"}, Keys=K2, MaxSteps=7 if quick else 9, MaxProcs=3, SetRule=rule), 300 if quick else 4000)):
+        spec_stage(chk, nm, "Reopen.tla", consts, view="View", emit="Emit", invariants=("XLastWriteWins",),
+                   properties=(), exe="procs", keep=has("close", "newproc"), sample=smp, chunk=40)
+    chk.assumptions += ["processes end with all instances closed cleanly (kills are C04's quantifier)"]
+
+
+def c11(chk):
+    quick = chk.tier == "quick"
+    auto = {"set", "del", "emptyset"}
+    late = has("lset", "ldel", "lget", "lkeys", "lcommit", "lrollback")
+    l1_stage(chk, "ext_auto", dict(Keys=K2, MaxTx=0, MaxSteps=4 if quick else 5, Levels={"RC"}, Ops=auto), mode="both")
+    l1_stage(chk, "ext_tx", dict(Keys=K2, MaxTx=2, MaxSteps=4 if quick else 5, Levels={"RU", "RC", "RR", "SER"}, Ops=TXOPS | {"emptyset"}),
+             mode="both", keep=has("begin"), sample=2500 if quick else 30000)
+    l1_stage(chk, "ext_late_restart", dict(Keys=K1, MaxTx=2, MaxSteps=5, Levels={"RU", "RC", "RR"}, Ops={"set", "begin", "commit", "rollback", "late", "gc", "reopen"}),
+             mode="both", keep=late, sample=1500 if quick else 20000)
+    l1_stage(chk, "ext_sim", dict(Keys=K3, MaxTx=3, MaxSteps=30, Levels={"RU", "RC", "RR", "SER"}, Ops=TXOPS | {"emptyset", "gc"}),
+             mode="both", simulate=40 if quick else 800, depth=30)
+
+
+PLANS = {"C05": c05, "C11": c11, "C01": c01, "C02": c02, "C03": c03, "C09": c09, "C13": c13, "C14": c14}
 
 
 def main():
